@@ -12,6 +12,7 @@
 mod common;
 mod evidence;
 mod oracle;
+mod prog;
 mod props;
 
 use std::time::Duration;
